@@ -14,11 +14,21 @@ Lemma layouts :
 Proof. reflexivity. Qed.
 
 (* ---------------------------------------------------------------- triSign *)
+Lemma neg64_1 : neg64 1 = -1.
+Proof. vm_compute. reflexivity. Qed.
+
+(* split on whatever comparisons the generated term contains (robust against reordered / nested tests) *)
+Ltac zcmp :=
+  rewrite ?Z.gtb_ltb, ?Z.geb_leb in *;
+  repeat match goal with
+  | |- context [Z.ltb ?a ?b] => destruct (Z.ltb_spec a b)
+  | |- context [Z.leb ?a ?b] => destruct (Z.leb_spec a b)
+  | |- context [Z.eqb ?a ?b] => destruct (Z.eqb_spec a b)
+  end.
+
 Lemma gen_triSign_eq x : gen_triSign x = triSign x.
 Proof.
-  unfold gen_triSign, triSign.
-  destruct (x <? 0); [vm_compute; reflexivity|].
-  destruct (x >? 1); reflexivity.
+  unfold gen_triSign, triSign. rewrite ?neg64_1. zcmp; try reflexivity; lia.
 Qed.
 
 Lemma triSign_cases x : triSign x = -1 \/ triSign x = 0 \/ triSign x = 1.
